@@ -114,7 +114,7 @@ extra={
  "C13":" Status texts that look like an encoding of something else (percent escapes, plus signs, backslash escapes, entities, base64, blanks, 1.5 KB / 56 KB) in the end-to-end sequences.",
  "C16":" Message types imported from Go packages named like the generated code's own imports; reserved identifiers under lower-case/snake-case spellings and as service names; same-named local and imported response types.",
  "C17":" The binding check also compares the result type of each promise type's Get with the result type of the quorum function that produces the value, on tricky and import-name definitions too.",
- "C18":" Directed: 45 calls of all kinds on a closed manager leave no router; heap monitor: live heap objects after GC over three windows of 1000 completed calls (to an unreachable node; on healthy nodes) must not grow by more than one object per call in both of the last two windows.",
+ "C18":" Directed: 45 calls of all kinds on a closed manager leave no router; heap monitor: live heap objects after GC over three windows of 1000 completed calls (to an unreachable node; on healthy nodes) must not grow by more than 1.3 objects per call in both of the last two windows.",
  "C19":" Pool of never-connected nodes (WithNoConnect manager, nodes no manager has adopted): sorted like any others, LastNodeError included.",
 }
 for k,v in extra.items():
